@@ -57,6 +57,9 @@ def make_recorder(p, workdir):
     from wpull.warc.recorder import WARCRecorder, WARCRecorderParams
     import wpull.util
     uuid.uuid4 = det_uuid4
+    import gzip
+    import types
+    gzip.time = types.SimpleNamespace(time=lambda: 1577934245.0)   # deterministic member mtime
     wpull.util.datetime_str = lambda: '2020-01-02T03:04:05Z'
     url_table = None
     if p.get('dedup') is not None:
@@ -91,6 +94,9 @@ def teardown_logging():
                 pass
     root.setLevel(logging.WARNING)
     uuid.uuid4 = _orig_uuid4
+    import gzip
+    import time
+    gzip.time = time
 
 
 def collect(workdir):
